@@ -171,57 +171,58 @@ var c13Muts = []c13Mut{
 		}
 		return "nope"
 	}},
-	{"R2-undefined-directive-elsewhere", func(r *Rng, s *sSet) string {
-		// every other place a directive can be used, on members whose type is already resolved when the document
-		// is scanned (built-in scalars) as well as on members typed by the document's own definitions
-		use := sDirUse{name: "nope"}
-		switch r.Intn(6) {
-		case 0:
-			d := s.pick(r, "input")
-			if d == nil || len(d.inFields) == 0 {
-				return ""
-			}
-			if r.Bool() {
-				d.inFields = append(d.inFields, &sArg{name: "plain", t: wrapRandom(r, named(Pick(r, []string{"Int", "String", "Boolean", "ID", "Float"}))), dirs: []sDirUse{use}})
-			} else {
-				f := Pick(r, d.inFields)
-				f.dirs = append(f.dirs, use)
-			}
-		case 1:
-			d := s.pick(r, "object")
+	{"R2-undefined-directive-input-field-builtin", func(r *Rng, s *sSet) string {
+		// a new input field whose type is a bare built-in scalar: already resolved when the document is scanned
+		d := s.pick(r, "input")
+		if d == nil {
+			return ""
+		}
+		d.inFields = append(d.inFields, &sArg{name: "plain", t: named(Pick(r, []string{"Int", "String", "Boolean", "ID", "Float"})), dirs: []sDirUse{{name: "nope"}}})
+		return "nope"
+	}},
+	{"R2-undefined-directive-input-field", func(r *Rng, s *sSet) string {
+		d := s.pick(r, "input")
+		if d == nil || len(d.inFields) == 0 {
+			return ""
+		}
+		if r.Bool() {
+			d.inFields = append(d.inFields, &sArg{name: "wrapped", t: wrapRandom(r, named(Pick(r, []string{"Int", "String"}))), dirs: []sDirUse{{name: "nope"}}})
+		} else {
+			f := Pick(r, d.inFields)
+			f.dirs = append(f.dirs, sDirUse{name: "nope"})
+		}
+		return "nope"
+	}},
+	{"R2-undefined-directive-argument", func(r *Rng, s *sSet) string {
+		d := s.pick(r, "object")
+		f := Pick(r, d.fields)
+		t := named(Pick(r, []string{"Int", "String", "Boolean"}))
+		if r.Bool() {
+			t = wrapRandom(r, t)
+		}
+		f.args = append(f.args, &sArg{name: "plainArg", t: t, dirs: []sDirUse{{name: "nope"}}})
+		return "nope"
+	}},
+	{"R2-undefined-directive-enum", func(r *Rng, s *sSet) string {
+		d := s.pick(r, "enum")
+		if r.Bool() {
+			d.dirs = append(d.dirs, sDirUse{name: "nope"})
+		} else {
+			v := Pick(r, d.values)
+			v.dirs = append(v.dirs, sDirUse{name: "nope"})
+		}
+		return "nope"
+	}},
+	{"R2-undefined-directive-type-level", func(r *Rng, s *sSet) string {
+		d := s.pick(r, Pick(r, []string{"input", "interface", "union"}))
+		if d == nil {
+			return ""
+		}
+		if d.kind == "interface" && r.Bool() {
 			f := Pick(r, d.fields)
-			f.args = append(f.args, &sArg{name: "plainArg", t: wrapRandom(r, named(Pick(r, []string{"Int", "String", "Boolean"}))), dirs: []sDirUse{use}})
-		case 2:
-			d := s.pick(r, "enum")
-			if r.Bool() {
-				d.dirs = append(d.dirs, use)
-			} else {
-				v := Pick(r, d.values)
-				v.dirs = append(v.dirs, use)
-			}
-		case 3:
-			d := s.pick(r, "input")
-			if d == nil {
-				return ""
-			}
-			d.dirs = append(d.dirs, use)
-		case 4:
-			d := s.pick(r, "interface")
-			if d == nil {
-				return ""
-			}
-			if r.Bool() {
-				d.dirs = append(d.dirs, use)
-			} else {
-				f := Pick(r, d.fields)
-				f.dirs = append(f.dirs, use)
-			}
-		default:
-			d := s.pick(r, "union")
-			if d == nil {
-				return ""
-			}
-			d.dirs = append(d.dirs, use)
+			f.dirs = append(f.dirs, sDirUse{name: "nope"})
+		} else {
+			d.dirs = append(d.dirs, sDirUse{name: "nope"})
 		}
 		return "nope"
 	}},
